@@ -1689,6 +1689,9 @@ func (e *Engine) deleteSeriesRange(seriesKeys [][]byte, min, max int64) error {
 			for j < len(seriesKeys) && cmp < 0 {
 				j++
 				if j >= len(seriesKeys) {
+					// do not leave with the read lock held: a sibling goroutine of
+					// this Apply would wait for the write lock forever
+					seriesKeysLock.RUnlock()
 					return nil
 				}
 				cmp = bytes.Compare(seriesKeys[j], seriesKey)
